@@ -161,6 +161,8 @@ class TabularMarkovDecisionProcess(MarkovDecisionProcess):
                 for ns, nsp in self._cached_next_state_dist(s, a).items():
                     if nsp == 0.:
                         continue
+                    if ns not in self.state_list and self.is_absorbing(s):
+                        continue #successors of absorbing states are not expanded
                     nsi = self.state_list.index(ns)
                     tf[si, ai, nsi] = nsp
         tf.setflags(write=False)
@@ -200,6 +202,8 @@ class TabularMarkovDecisionProcess(MarkovDecisionProcess):
                 for ns, p in self._cached_next_state_dist(s, a).items():
                     if p == 0.:
                         continue
+                    if ns not in self.state_list and self.is_absorbing(s):
+                        continue #successors of absorbing states are not expanded
                     nsi = self.state_list.index(ns)
                     rf[si, ai, nsi] = self.reward(s, a, ns)
         rf.setflags(write=False)
